@@ -106,6 +106,9 @@ def cases(tier):
             cs.append({'name': 'cyclic/q%d' % k, 'kind': 'cyclic', 'n': n, 'graphs': [g], 'order': 'sorted'})
     for nb in (1, 2, 3, 4):
         cs.append({'name': 'random-displ/neigh%d' % nb, 'kind': 'displ', 'nb': nb})
+    # the bond table lists the neighbours in an arbitrary order ("first three" = first three table entries)
+    for nb, perm in ((2, [2, 1]), (3, [3, 1, 2]), (3, [2, 3, 1]), (4, [4, 2, 1, 3]), (4, [3, 4, 1, 2]), (4, [2, 1, 4, 3])):
+        cs.append({'name': 'random-displ/neigh%d/table-order-%s' % (nb, ''.join(map(str, perm))), 'kind': 'displ', 'nb': nb, 'perm': perm})
     return cs
 
 
@@ -133,6 +136,7 @@ def run_case(case):
     if case['kind'] == 'displ':
         nb = case['nb']
         n = nb + 1
+        T = case.get('perm') or list(range(1, n))      # neighbour indices in table order
         xv = [[z3.Real('x%d_%d' % (i, k)) for k in range(3)] for i in range(n)]
         bv = {(0, j): z3.Real('b0_%d' % j) for j in range(1, n)}
         sig = z3.Real('sigma')
@@ -144,6 +148,9 @@ def run_case(case):
                 ctx.assume(v > 0)
             ctx.assume(sig > 0)
             info = _bonds_info(n, [(0, j) for j in range(1, n)], 'sorted', bv)
+            if case.get('perm'):
+                by = {t[0]: t for t in info[0]}
+                info[0] = [by[j] for j in case['perm']]
             mark = len(ctx.log)
             d = tm.find_atom_random_displ(X, info, 0, sigma_scale=SymReal(sig))
             return d, [l for l in ctx.log[mark:]]
@@ -154,15 +161,15 @@ def run_case(case):
                 draws = [l[2] for l in ctx.log if l[0] == 'draw' and l[1] == 'rand']
                 X = [[xv[i][k] for k in range(3)] for i in range(n)]
                 if nb == 1:
-                    ref = [X[1][k] - X[0][k] for k in range(3)]
+                    ref = [X[T[0]][k] - X[0][k] for k in range(3)]
                 elif nb == 2:
-                    ref = [X[1][k] - X[2][k] for k in range(3)]
+                    ref = [X[T[0]][k] - X[T[1]][k] for k in range(3)]
                 if nb <= 2 and draws:
                     r_ = [expr(v) for v in draws[0]]
                     cr = [r_[1] * ref[2] - r_[2] * ref[1], r_[2] * ref[0] - r_[0] * ref[2], r_[0] * ref[1] - r_[1] * ref[0]]
                 else:
-                    u = [X[1][k] - X[3][k] for k in range(3)]
-                    w = [X[1][k] - X[2][k] for k in range(3)]
+                    u = [X[T[0]][k] - X[T[2]][k] for k in range(3)]
+                    w = [X[T[0]][k] - X[T[1]][k] for k in range(3)]
                     cr = [u[1] * w[2] - u[2] * w[1], u[2] * w[0] - u[0] * w[2], u[0] * w[1] - u[1] * w[0]]
                 r, secs, m = ctx.prove(z3.And(*[c == 0 for c in cr]), cap)
                 records.append({'name': 'path%d: non-finite only when the random vector is parallel to the reference direction '
@@ -176,19 +183,19 @@ def run_case(case):
             records.append(core_twin(ctx, cap, inputs))
             X = [[xv[i][k] for k in range(3)] for i in range(n)]
             if nb == 1:
-                perp = [[X[1][k] - X[0][k] for k in range(3)]]
+                perp = [[X[T[0]][k] - X[0][k] for k in range(3)]]
                 what = 'perpendicular to the bond'
             elif nb == 2:
-                perp = [[X[1][k] - X[2][k] for k in range(3)]]
+                perp = [[X[T[0]][k] - X[T[1]][k] for k in range(3)]]
                 what = 'perpendicular to the line through the two neighbours'
             else:
-                perp = [[X[1][k] - X[3][k] for k in range(3)], [X[1][k] - X[2][k] for k in range(3)]]
+                perp = [[X[T[0]][k] - X[T[2]][k] for k in range(3)], [X[T[0]][k] - X[T[1]][k] for k in range(3)]]
                 what = 'perpendicular to the plane through the first three neighbours'
             claim = z3.And(*[sum(expr(d[k]) * p[k] for k in range(3)) == 0 for p in perp])
             r, secs, m = ctx.prove(claim, cap)
             rec = {'name': 'path%d: displacement %s' % (st['paths'], what), 'status': r, 'secs': secs}
             if r == 'sat':
-                rec['witness'] = {'kind': 'displ', 'nb': nb, 'inputs': concretize_inputs(ctx, [z3.Not(claim)], inputs, m), 'obligation': what}
+                rec['witness'] = {'kind': 'displ', 'nb': nb, 'perm': T, 'inputs': concretize_inputs(ctx, [z3.Not(claim)], inputs, m), 'obligation': what}
             records.append(rec)
             # modulus: |displ| = |normal draw| and the sigma handed to normal() is b0 * sigma_scale
             nd = [l[2] for l in log if l[0] == 'draw' and l[1] == 'norm']
@@ -204,7 +211,7 @@ def run_case(case):
                         sub = [(fs[k], z3.Real('dir!abs%d' % k)) for k in range(3) if not z3.is_const(fs[k])]
                 r, secs, m = ctx.prove_abstracted(sum(expr(d[k]) * expr(d[k]) for k in range(3)) == g * g, [sub], [], cap)
                 records.append({'name': 'path%d: |displacement| = |normal variate|' % st['paths'], 'status': r, 'secs': secs})
-                r, secs, m = ctx.prove(z3.And(expr(na[-1][1]) == 0, expr(na[-1][2]) == bv[(0, 1)] * sig), cap)
+                r, secs, m = ctx.prove(z3.And(expr(na[-1][1]) == 0, expr(na[-1][2]) == bv[(0, T[0])] * sig), cap)
                 records.append({'name': 'path%d: variate drawn with sigma = first bond length * sigma_scale' % st['paths'], 'status': r, 'secs': secs})
             samples.append({'neighbours': nb, 'displ[0]': str(z3.simplify(expr(d[0])))[:200]})
             st['queries'] += ctx.queries; st['solver_s'] += ctx.solver_time
@@ -312,7 +319,8 @@ def replay(w):
     if w['kind'] == 'displ':
         nb = w['nb']; n = nb + 1
         X = np.array([[v['x%d_%d' % (i, k)] for k in range(3)] for i in range(n)])
-        info = {0: [(j, 1.0) for j in range(1, n)]}
+        T = w.get('perm') or list(range(1, n))
+        info = {0: [(j, 1.0) for j in T]}
         bad = []
         rs = np.random.RandomState(1)
         st = np.random.get_state()
@@ -323,7 +331,7 @@ def replay(w):
                     d = find_atom_random_displ(X, info, 0, 0.5)
                 if not np.all(np.isfinite(d)):
                     bad.append('non-finite'); break
-                refs = {1: [X[1] - X[0]], 2: [X[1] - X[2]]}.get(nb, [X[1] - X[3], X[1] - X[2]])
+                refs = {1: [X[T[0]] - X[0]], 2: [X[T[0]] - X[T[1 % len(T)]]]}.get(nb, [X[T[0]] - X[T[2 % len(T)]], X[T[0]] - X[T[1 % len(T)]]])
                 if any(abs(np.dot(d, r)) > 1e-9 * max(1, np.linalg.norm(d) * np.linalg.norm(r)) for r in refs):
                     bad.append('not perpendicular'); break
         finally:
